@@ -50,3 +50,37 @@ func init() {
 	addMutant(mutant{Name: "writer/recovery-no-rewind-on-mismatch", Fire: []string{"VF-11"},
 		Edits: []edit{{"segment/writer.go", "	w.writer.writeOffset = uint32(prevCommit.offset + frameHeaderLen)\n	offsets = offsets[:prevCommit.offsetsLen]", "	offsets = offsets[:prevCommit.offsetsLen]"}}})
 }
+
+func init() {
+	// obligations added after seeded round 3
+	addMutant(mutant{Name: "recovery/skip-crc-when-commit-adds-no-entries", Fire: []string{"VF-11"},
+		Edits: []edit{{"segment/writer.go", "	// Last frame was a commit frame! Let's check that all the data written in\n	// that commit frame made it to disk.\n",
+			"	if prevCommit != nil && finalCommit.offsetsLen == prevCommit.offsetsLen {\n		return validateFileHeader(*readInfo, w.info)\n	}\n"}}})
+	addMutant(mutant{Name: "recovery/trailing-test-inverted", Fire: []string{"VF-11"},
+		Edits: []edit{{"segment/writer.go", "	if finalCommit.offsetsLen < len(offsets) {", "	if finalCommit.offsetsLen <= len(offsets) {"}}})
+	addMutant(mutant{Name: "metadb/stale-tmp-not-removed", Fire: []string{"ORD-09"},
+		Edits: []edit{{"metadb/metadb.go", "	if err := os.RemoveAll(tmpFileName); err != nil {\n		return err\n	}\n", ""}}})
+	addMutant(mutant{Name: "metadb/removes-final-instead-of-tmp", Fire: []string{"ORD-09"},
+		Edits: []edit{{"metadb/metadb.go", "	if err := os.RemoveAll(tmpFileName); err != nil {", "	if err := os.RemoveAll(filepath.Join(dir, FileName+\".old\")); err != nil {"}}})
+	addMutant(mutant{Name: "writer/offsets-loaded-before-commitidx", Fire: []string{"ORD-28"},
+		Edits: []edit{{"segment/writer.go", "	if idx < w.info.BaseIndex || idx < w.info.MinIndex || idx > w.LastIndex() {\n		return 0, types.ErrNotFound\n	}\n	os := w.getOffsets()\n",
+			"	os := w.getOffsets()\n	if idx < w.info.BaseIndex || idx < w.info.MinIndex || idx > w.LastIndex() {\n		return 0, types.ErrNotFound\n	}\n"}}})
+	addMutant(mutant{Name: "writer/offsets-stored-after-publish", Fire: []string{"ORD-28"},
+		Edits: []edit{{"segment/writer.go", "	// Update commitIdx atomically\n	offsets := w.getOffsets()\n", "	// Update commitIdx atomically\n	offsets := w.getOffsets()\n	defer w.offsets.Store(offsets)\n"}}})
+	addMutant(mutant{Name: "wal/post-commit-recovers-existing-file", Fire: []string{"ACC-07"},
+		Edits: []edit{{"wal.go", "		sw, err := w.sf.Create(newTail)\n		if err != nil {\n			return err\n		}\n",
+			"		sw, err := w.sf.Create(newTail)\n		if err != nil {\n			sw, err = w.sf.RecoverTail(newTail)\n		}\n		if err != nil {\n			return err\n		}\n"}}})
+	addMutant(mutant{Name: "wal/close-closes-readers-inline", Fire: []string{"ACC-07"},
+		Edits: []edit{{"wal.go", "		if seg.r != nil {\n			toClose = append(toClose, seg.r)\n		}\n	}\n	// Store finalizer to run once all readers are done.",
+			"		if seg.r != nil {\n			seg.r.Close()\n		}\n	}\n	// Store finalizer to run once all readers are done."}}})
+	addMutant(mutant{Name: "wal/truncation-deletes-inline", Fire: []string{"ACC-07"},
+		Edits: []edit{{"wal.go", "		fin := func() {\n			w.closeSegments(toClose)\n			w.deleteSegments(toDelete)\n		}\n		return fin, postCommit, nil",
+			"		w.deleteSegments(toDelete)\n		fin := func() {\n			w.closeSegments(toClose)\n		}\n		return fin, postCommit, nil"}}})
+	addMutant(mutant{Name: "silent/finalizer-built-by-helper", Silent: true,
+		Edits: []edit{{"wal.go", "		fin := func() {\n			w.closeSegments(toClose)\n			w.deleteSegments(toDelete)\n		}\n		return fin, postCommit, nil",
+			"		return w.mkFin(toClose, toDelete), postCommit, nil"},
+			{"wal.go", "func (w *WAL) deleteSegments(toDelete map[uint64]uint64) {", "func (w *WAL) mkFin(toClose []io.Closer, toDelete map[uint64]uint64) func() {\n	return func() {\n		w.closeSegments(toClose)\n		w.deleteSegments(toDelete)\n	}\n}\n\nfunc (w *WAL) deleteSegments(toDelete map[uint64]uint64) {"}}})
+	addMutant(mutant{Name: "silent/offsetforframe-split-conditions", Silent: true,
+		Edits: []edit{{"segment/writer.go", "	if idx < w.info.BaseIndex || idx < w.info.MinIndex || idx > w.LastIndex() {\n		return 0, types.ErrNotFound\n	}\n	os := w.getOffsets()\n",
+			"	if idx < w.info.BaseIndex || idx < w.info.MinIndex {\n		return 0, types.ErrNotFound\n	}\n	if last := w.LastIndex(); idx > last {\n		return 0, types.ErrNotFound\n	}\n	os := w.getOffsets()\n"}}})
+}
